@@ -3,6 +3,7 @@ package main
 import (
 	"fmt"
 	"sort"
+	"strings"
 	"go/ast"
 	"go/token"
 	"go/types"
@@ -263,4 +264,216 @@ func (c *Ctx) staleTip(rule string, fns []*FuncInfo, clause string) (sites, hits
 		}
 	}
 	return
+}
+
+// accumAgree — inside a loop, counters that are updated from the results of one and the same
+// (recursive) call must all be accumulated: `common += com; different += diff`. One of them being
+// overwritten (`=`) keeps only the last child's contribution: the result depends on child order.
+func (c *Ctx) accumAgree(rule string, fi *FuncInfo, clause string) int {
+	info := fi.Pkg.TypesInfo
+	n := 0
+	ast.Inspect(fi.Decl.Body, func(m ast.Node) bool {
+		var body *ast.BlockStmt
+		switch l := m.(type) {
+		case *ast.RangeStmt:
+			body = l.Body
+		case *ast.ForStmt:
+			body = l.Body
+		}
+		if body == nil {
+			return true
+		}
+		// results of a multi-value self call inside this loop
+		res := map[types.Object]bool{}
+		ast.Inspect(body, func(q ast.Node) bool {
+			if as, ok := q.(*ast.AssignStmt); ok && len(as.Rhs) == 1 && len(as.Lhs) > 1 {
+				if call, ok := unparen(as.Rhs[0]).(*ast.CallExpr); ok && calleeOf(info, call) == fi.Obj {
+					for _, l := range as.Lhs {
+						if o := identObj(info, l); o != nil && isNumeric(o.Type()) {
+							res[o] = true
+						}
+					}
+				}
+			}
+			return true
+		})
+		if len(res) == 0 {
+			return true
+		}
+		ops := map[string][]token.Pos{}
+		var names []string
+		ast.Inspect(body, func(q ast.Node) bool {
+			as, ok := q.(*ast.AssignStmt)
+			if !ok || len(as.Lhs) != 1 || len(as.Rhs) != 1 {
+				return true
+			}
+			r := identObj(info, as.Rhs[0])
+			l := identObj(info, as.Lhs[0])
+			if r == nil || l == nil || !res[r] || res[l] {
+				return true
+			}
+			// the accumulator outlives the loop
+			if declaredIn(info, body)[l] {
+				return true
+			}
+			ops[as.Tok.String()] = append(ops[as.Tok.String()], as.Pos())
+			names = append(names, l.Name()+as.Tok.String()+r.Name())
+			return true
+		})
+		if len(names) == 0 {
+			return true
+		}
+		n++
+		key := fmt.Sprintf("%s/accumulators#%d", funcName(fi.Obj), n)
+		if len(ops["="]) > 0 && len(ops["+="]) > 0 {
+			c.Violation(rule, key, ops["="][0], fmt.Sprintf("counters fed by the results of the same recursive call are updated inconsistently (%v): the one assigned with `=` keeps only the last child's contribution, so the result depends on the order of the children", names)).Clause = clause
+		} else {
+			c.OK(rule, key, body.Pos(), fmt.Sprintf("counters fed by the recursive call are all accumulated the same way (%v)", names))
+		}
+		return false
+	})
+	return n
+}
+
+// memoStale — inside a loop over items, `if v == nil { v = f(item) }` with v declared outside the
+// loop caches a function of the first item for all later items.
+func (c *Ctx) memoStale(rule string, pkgRel string, fileSuffix string, clause string) int {
+	n := 0
+	p := c.Pkg(pkgRel)
+	if p == nil {
+		return 0
+	}
+	for _, file := range p.Syntax {
+		if f, _ := c.pos(file.Pos()); !strings.HasSuffix(f, fileSuffix) {
+			continue
+		}
+		info := p.TypesInfo
+		owner := strings.TrimSuffix(fileSuffix, ".go")
+		ast.Inspect(file, func(m ast.Node) bool {
+			rs, ok := m.(*ast.RangeStmt)
+			if !ok {
+				return true
+			}
+			var items []types.Object
+			for _, e := range []ast.Expr{rs.Key, rs.Value} {
+				if e != nil {
+					if o := identObj(info, e); o != nil {
+						items = append(items, o)
+					}
+				}
+			}
+			inner := declaredIn(info, rs.Body)
+			// locals derived from the item count as the item
+			derived := map[types.Object]bool{}
+			for _, o := range items {
+				derived[o] = true
+			}
+			n++
+			bad := token.NoPos
+			var bname string
+			ast.Inspect(rs.Body, func(q ast.Node) bool {
+				is, ok := q.(*ast.IfStmt)
+				if !ok {
+					return true
+				}
+				v, nonNil, ok := nilTest(info, is.Cond)
+				if !ok || nonNil || inner[v] {
+					// also `len(v) == 0`
+					if lv, op, k, ok2 := lenTest(info, is.Cond); ok2 && op == token.EQL && k == 0 && !inner[lv] {
+						v = lv
+					} else {
+						return true
+					}
+				}
+				for _, s := range is.Body.List {
+					as, ok := s.(*ast.AssignStmt)
+					if !ok {
+						continue
+					}
+					for i, l := range as.Lhs {
+						if identObj(info, l) != v {
+							continue
+						}
+						var r ast.Expr
+						if len(as.Rhs) == len(as.Lhs) {
+							r = as.Rhs[i]
+						} else if len(as.Rhs) == 1 {
+							r = as.Rhs[0]
+						}
+						if r == nil {
+							continue
+						}
+						for o := range derived {
+							if mentions(info, r, o) {
+								bad = as.Pos()
+								bname = v.Name()
+							}
+						}
+					}
+				}
+				return true
+			})
+			key := fmt.Sprintf("%s/range %s", owner, c.src(rs.X))
+			if bad.IsValid() {
+				c.Violation(rule, key, bad, fmt.Sprintf("`%s` is computed from the current item only while it is still empty and then reused for every later item of the loop: later trees are processed with what was computed for the first one", bname)).Clause = clause
+			} else {
+				c.Trivial(rule, key, rs.Pos(), "no value derived from the item is cached across iterations")
+			}
+			return true
+		})
+	}
+	return n
+}
+
+// freshPerItem — a container that is filled from the current item inside a loop over a channel of
+// items must be created inside that loop (otherwise what earlier items put in it is still there).
+func (c *Ctx) freshPerItem(rule string, fi *FuncInfo, fillMethods map[string]bool, ctor string, clause string) int {
+	info := fi.Pkg.TypesInfo
+	n := 0
+	ast.Inspect(fi.Decl.Body, func(m ast.Node) bool {
+		rs, ok := m.(*ast.RangeStmt)
+		if !ok {
+			return true
+		}
+		if _, isChan := info.TypeOf(rs.X).Underlying().(*types.Chan); !isChan {
+			return true
+		}
+		inner := declaredIn(info, rs.Body)
+		seen := map[types.Object]bool{}
+		for _, call := range callsIn(rs.Body, true) {
+			fn := calleeOf(info, call)
+			sel, ok := unparen(call.Fun).(*ast.SelectorExpr)
+			if fn == nil || !ok || !fillMethods[fn.Name()] {
+				continue
+			}
+			x := identObj(info, sel.X)
+			if x == nil || seen[x] {
+				continue
+			}
+			seen[x] = true
+			n++
+			key := fmt.Sprintf("%s/%s.%s", funcName(fi.Obj), x.Name(), fn.Name())
+			// created inside the loop body: declared there, or assigned from the constructor there
+			fresh := inner[x]
+			if !fresh {
+				ast.Inspect(rs.Body, func(q ast.Node) bool {
+					if as, ok := q.(*ast.AssignStmt); ok && as.Pos() < call.Pos() {
+						for i, l := range as.Lhs {
+							if identObj(info, l) == x && i < len(as.Rhs) {
+								if cl, ok := unparen(as.Rhs[i]).(*ast.CallExpr); ok {
+									if g := calleeOf(info, cl); g != nil && g.Name() == ctor {
+										fresh = true
+									}
+								}
+							}
+						}
+					}
+					return true
+				})
+			}
+			c.Check(fresh, rule, key, call.Pos(), x.Name()+" is created anew for each item", fmt.Sprintf("`%s` is filled from each item of the channel (%s) but created outside the loop: what earlier trees put in it is still there when later trees are looked up", x.Name(), fn.Name())).Clause = clause
+		}
+		return true
+	})
+	return n
 }
